@@ -210,6 +210,16 @@ func c18pattern(c *core.Ctx) {
 			}
 		}
 	}
+	// every use of the flowing value is accounted for: the encoder, a helper of the module (followed), a
+	// predicate that only looks at it (strings.Contains..., utf8.Valid..., len, comparisons, byte reads).
+	// Anything that builds text from it (concatenation, conversion that is stored or returned, a formatter)
+	// is a way around the encoder
+	leak := ""
+	note := func(in ssa.Instruction, what string) {
+		if leak == "" {
+			leak = what + " at " + c.P.Pos(in.Pos())
+		}
+	}
 	for len(work) > 0 {
 		v := work[0]
 		work = work[1:]
@@ -238,27 +248,57 @@ func c18pattern(c *core.Ctx) {
 							push(ld)
 						}
 					}
+				} else if x.Val == v {
+					note(x, "the pattern is stored away unencoded")
+				}
+			case *ssa.BinOp:
+				switch x.Op {
+				case token.EQL, token.NEQ, token.LSS, token.GTR, token.LEQ, token.GEQ:
+				default:
+					note(x, "the pattern is concatenated into text without the JSON encoder")
+				}
+			case *ssa.Lookup, *ssa.Index, *ssa.IndexAddr, *ssa.Range, *ssa.DebugRef, *ssa.Slice, *ssa.If:
+				// reads of single bytes / sub-slices for tests
+			case *ssa.Return:
+				if x.Parent() != f {
+					note(x, "a helper returns the pattern itself (or its bytes) unencoded")
 				}
 			case ssa.CallInstruction:
 				com := x.Common()
 				g := com.StaticCallee()
 				if g == nil {
+					if bi, ok := com.Value.(*ssa.Builtin); ok && (bi.Name() == "len" || bi.Name() == "cap") {
+						continue
+					}
+					note(x, "the pattern is handed to a dynamic call")
 					continue
 				}
 				for ai, a := range com.Args {
 					if a != v {
 						continue
 					}
-					if g.String() == "encoding/json.Marshal" {
+					switch {
+					case g.String() == "encoding/json.Marshal":
 						marshalled = true
-					} else if c.P.FuncInModule(g) && g.Blocks != nil && ai < len(g.Params) {
+					case c.P.FuncInModule(g) && g.Blocks != nil && ai < len(g.Params):
 						push(g.Params[ai])
+					default:
+						// a library predicate: result is a bool or an int
+						res := g.Signature.Results()
+						pure := res.Len() == 1
+						if pure {
+							b, isB := res.At(0).Type().Underlying().(*types.Basic)
+							pure = isB && b.Info()&(types.IsBoolean|types.IsInteger) != 0
+						}
+						if !pure {
+							note(x, "the pattern is handed to "+g.String()+", which builds text from it")
+						}
 					}
 				}
 			}
 		}
 	}
-	c.Check(fromPattern && marshalled, R, "FromRSchema:pattern", c.P.Pos(d.Decl.Pos()), "FromRSchema: the result of s.Pattern() reaches json.Marshal unchanged (directly or through helpers)", core.F("the pattern of the derived schema is not the unmodified result of Pattern() (Pattern() called: %v, its result JSON-encoded as is: %v)", fromPattern, marshalled))
+	c.Check(fromPattern && marshalled && leak == "", R, "FromRSchema:pattern", c.P.Pos(d.Decl.Pos()), "FromRSchema: the result of s.Pattern() reaches json.Marshal unchanged (directly or through helpers) and is used for nothing else but tests", core.F("the pattern of the derived schema is not the unmodified result of Pattern() put through the JSON encoder (Pattern() called: %v, its result JSON-encoded as is: %v, other use: %s)", fromPattern, marshalled, leak))
 }
 
 // c19ctor: the set constructor keeps order and content in step.
